@@ -216,14 +216,34 @@ def observer_summary(ctx, rid, f, path, key, value, kind):
     ub = peel(scan["bounds"])
     ctx.ob(rid, key + "|bounds", isinstance(ub, tuple) and ub[0] == "field" and ub[2] == "upper_bounds", "the scan must run over the histogram's upper_bounds (found %s)" % show(ub), site=c.span)
     # Some arm only: bucket increment
-    si = b.switch_info(c.target)
+    # the branch on the scan's result (directly after the call, or — when the scan sits in a helper — wherever its value is finally tested)
+    sw = [bi for bi in b.reachable_blocks() if (lambda si_: si_ and si_[0][0] == "discr" and peel(si_[0][1]) == c.result_term())(b.switch_info(bi))]
+    if len(sw) != 1:
+        ctx.ob(rid, key + "|bucket-inc-in-some-arm", False, "the result of the scan must be tested exactly once (found %d tests)" % len(sw), site=c.span)
+        return None
+    swb = sw[0]
+    si = b.switch_info(swb)
     some_t = [t for v, t in si[1] if v == 1]
     none_t = [t for v, t in si[1] if v == 0] or [si[2]]
-    idx_term = ("field", ("field", ("downcast", c.result_term(), "Some"), "0"), "0")
+    # the matched index: (i, &bound).0 for enumerate().filter().next() / find, the position itself for position()
+    idx_terms = [("field", ("field", ("downcast", c.result_term(), "Some"), "0"), "0")] if scan.get("kind") != "position" else [("field", ("downcast", c.result_term(), "Some"), "0")]
+
+    def is_idx(t):
+        t = peel(t)
+        # normalise the discriminated place to the scan's result
+        if isinstance(t, tuple) and t and t[0] == "field":
+            def norm(u):
+                if isinstance(u, tuple) and u and u[0] == "field":
+                    return ("field", norm(u[1]), u[2])
+                if isinstance(u, tuple) and u and u[0] == "downcast":
+                    return ("downcast", peel(u[1]), u[2])
+                return peel(u)
+            t = norm(t)
+        return t in idx_terms
     if kind == "shared":
         incs = [x for x in b.calls_to(["Atomic::inc_by", "AtomicU64::inc_by_with_ordering"]) if is_call(peel(x.args[0], transparent=[]), ["Index::index"]) and
                 peel(peel(x.args[0], transparent=[])[2][0])[0] == "field" and peel(peel(x.args[0], transparent=[])[2][0])[2] == "buckets"]
-        ok = len(incs) == 1 and some_t and b.edge_dominates(c.target, some_t[0], incs[0].bb) and peel(peel(incs[0].args[0], transparent=[])[2][1]) == idx_term and const_int(incs[0].args[1]) == 1
+        ok = len(incs) == 1 and some_t and b.edge_dominates(swb, some_t[0], incs[0].bb) and is_idx(peel(incs[0].args[0], transparent=[])[2][1]) and const_int(incs[0].args[1]) == 1
         ctx.ob(rid, key + "|bucket-inc-in-some-arm", ok, "the selected bucket (index of the match) is incremented by 1, only when a bound matched", site=incs[0].span if incs else c.span)
         sums = [x for x in b.calls_to("Atomic::inc_by") if peel(x.args[0])[0] == "field" and peel(x.args[0])[2] == "sum"]
         cnts = [x for x in b.calls_to(["AtomicU64::inc_by_with_ordering", "Atomic::inc_by"]) if peel(x.args[0])[0] == "field" and peel(x.args[0])[2] == "count"]
@@ -239,7 +259,7 @@ def observer_summary(ctx, rid, f, path, key, value, kind):
         if len(bk) == 1:
             tgt = bk[0][1]
             im = tgt[1] if tgt[0] == "deref" else tgt
-            okb = is_call(im, "IndexMut::index_mut") and peel(im[2][0]) == SELF_FIELD("counts") and peel(im[2][1]) == idx_term and bool(some_t) and b.edge_dominates(c.target, some_t[0], bk[0][0])
+            okb = is_call(im, "IndexMut::index_mut") and peel(im[2][0]) == SELF_FIELD("counts") and is_idx(im[2][1]) and bool(some_t) and b.edge_dominates(swb, some_t[0], bk[0][0])
             v = bk[0][2]
             okb = okb and v[0] == "field" and v[1][0] == "binop" and v[1][1] in ("AddWithOverflow", "Add") and const_int(v[1][3]) == 1
         ctx.ob(rid, key + "|bucket-inc-in-some-arm", okb, "the selected local bucket counter is incremented by 1, only when a bound matched", site=c.span)
